@@ -76,3 +76,69 @@ func genKeys(e *emitter, prop string, tier string) {
 		}
 	}
 }
+
+// propOps: the operators each operator-level property is about.
+var propOps = map[string][]string{
+	"C03": {"Add", "Sub", "Mul", "Div", "Equal", "Greater", "GreaterOrEqual", "Less", "LessOrEqual", "And", "Or", "Xor"},
+	"C04": {"MatMul", "Gemm", "LinearRegressor", "Scaler"},
+	"C05": {"Conv"},
+	"C06": {"RNN", "GRU", "LSTM"},
+	"C07": {"Reshape", "Flatten", "Squeeze", "Unsqueeze", "Shape"},
+	"C08": {"Transpose", "Concat", "Slice", "Gather", "Expand"},
+	"C09": {"ArgMax", "ReduceMax", "ReduceMin", "Softmax", "LogSoftmax"},
+	"C10": {"Abs", "Relu", "PRelu", "Sigmoid", "Tanh", "Sin", "Cos", "Tan", "Asin", "Acos", "Atan", "Sinh", "Cosh", "Asinh", "Acosh", "Atanh", "Not"},
+	"C11": {"ConstantOfShape", "Cast"},
+}
+
+// genDtypeSweep: the example request of every operator of the property, with the element type of ONE input
+// position at a time (and of all positions that share the example's type at once) replaced by each of the
+// 14 element types. What the gate must admit is pinned in Spec/Types.lean; an admitted type must compute.
+func genDtypeSweep(e *emitter, prop string) {
+	save := reuseEvery
+	reuseEvery = 0
+	defer func() { reuseEvery = save }()
+	retype := func(t *TJ, dt string) *TJ {
+		if t == nil {
+			return nil
+		}
+		r := &TJ{Dt: dt, Shape: append([]int{}, t.Shape...)}
+		for i := range t.Data {
+			v := toF(t.Data[i])
+			if dt == "bool" {
+				v = float64(int(v) % 2)
+			}
+			r.Data = append(r.Data, v)
+		}
+		return r
+	}
+	for _, op := range propOps[prop] {
+		ex, ok := exampleCases[op]
+		if !ok || len(ex.Inputs) == 0 {
+			continue
+		}
+		for _, dt := range allDts {
+			for p := range ex.Inputs {
+				if ex.Inputs[p] == nil || len(ex.Inputs[p].Bits) > 0 {
+					continue
+				}
+				ins := append([]*TJ{}, ex.Inputs...)
+				ins[p] = retype(ex.Inputs[p], dt)
+				e.emit(opCase("dtype-sweep", op, ex.Attrs, ins, ex.Outputs))
+			}
+			// all positions that carry the type of input 0
+			if ex.Inputs[0] != nil && len(ex.Inputs) > 1 {
+				ins := append([]*TJ{}, ex.Inputs...)
+				n := 0
+				for p, t := range ex.Inputs {
+					if t != nil && t.Dt == ex.Inputs[0].Dt && len(t.Bits) == 0 {
+						ins[p] = retype(t, dt)
+						n++
+					}
+				}
+				if n > 1 {
+					e.emit(opCase("dtype-sweep", op, ex.Attrs, ins, ex.Outputs))
+				}
+			}
+		}
+	}
+}
